@@ -50,5 +50,12 @@ UNIT = Unit(
            rewrites=[(re.compile(r"\.clone\(\)"), ".vclone()", "*")],
            obligation="re-pointing a constructor at a monomorphic type keeps its kind, its variant and its tag; only the type's name changes",
            contract="ensures ctor_updated(*constructor, *new_ty, r),"),
+        Fn(file=E, name="enum_constructor_info", container="TypeEnv", drop_self_impl=True, ret="r",
+           pre_rewrites=[(re.compile(r"enum_def\s*\.variants\s*\.iter\(\)\s*\.enumerate\(\)\s*\.find\(\|\(_, \(variant_name, _\)\)\| variant_name == constr\)\s*\.map\(\|\(index, _\)\| Self::build_enum_constructor\(enum_name, enum_def, index\)\)"),
+                          "{ let mut __fi: usize = 0; let mut __fr: Option<(Constructor, Ty)> = None; while __fi < enum_def.variants.len() { if ident_eq(&enum_def.variants[__fi].0, constr) { __fr = Some(build_enum_constructor(enum_name, enum_def, __fi)); break; } __fi += 1; } __fr }", 1)],
+           obligation="the constructor of the FIRST variant of that name (position = tag), None when the enum has no such variant",
+           contract="ensures variant_ctor_ok(*enum_name, *enum_def, *constr, r),",
+           loop_fn=lambda k, header, kw: ("invariant_except_break __fr is None,\ninvariant __fi <= enum_def.variants.len(), first_variant(*enum_def, *constr, 0) == first_variant(*enum_def, *constr, __fi as int),\n"
+                                          "ensures variant_ctor_ok(*enum_name, *enum_def, *constr, __fr),\n decreases enum_def.variants.len() - __fi," if "__fi" in header else None)),
     ],
 )
